@@ -20,6 +20,7 @@ def main():
     ap.add_argument("id"); ap.add_argument("n")
     ap.add_argument("--patch"); ap.add_argument("--dest"); ap.add_argument("--what", default=""); ap.add_argument("--needs", default="")
     ap.add_argument("--src", default=None)
+    ap.add_argument("--tag", default="")
     a = ap.parse_args()
     src = a.src or f"/tmp/mut/{a.id}/_out"
     patch = a.patch or f"{src}/mut{a.n}.diff"
@@ -36,7 +37,7 @@ def main():
     if not dest:
         print("cannot determine demo destination; pass --dest"); sys.exit(2)
     dest = dest.rstrip("/")
-    wt = f"/tmp/cm/{a.id}-{a.n}"
+    wt = f"/tmp/cm/{a.id}-{a.tag}{a.n}"
     shutil.rmtree(wt, ignore_errors=True)
     subprocess.run(["git", "-C", "/repo", "worktree", "prune"])
     os.makedirs("/tmp/cm", exist_ok=True)
@@ -86,7 +87,7 @@ def main():
     res["breaks"] = a.what
     res["needs_to_manifest"] = a.needs
     if ok:
-        sd = f"/verif/seeded/{a.id}-{a.n}"
+        sd = f"/verif/seeded/{a.id}-{a.tag}{a.n}"
         shutil.rmtree(sd, ignore_errors=True)
         os.makedirs(sd + "/demo")
         shutil.copy(patch, sd + "/patch.diff")
